@@ -56,10 +56,10 @@ Proof. exact CallGraph.lock_order_acyclic. Qed.
 Print Assumptions c05_lock_order_acyclic.
 
 (* ---------------------------------------------------------------------------------------------- *)
-(* REGENERATED FROM THE SOURCE ON EVERY RUN (tools/gen -> Generated.g_code; Decisions.v): the decisions the model
+(* REGENERATED FROM THE SOURCE ON EVERY RUN (tools/gen -> Generated.g_code; DecBase.v, Dec*.v): the decisions the model
    takes at these points are the evaluations of the conditions the Go source has there, for all values of their
    variables. *)
-From GK Require Import GExpr Generated Decisions.
+From GK Require Import GExpr Generated DecBase DecProto DecFlush.
 From Coq Require Import String.
 
 (* rootCAS chains the new version behind the previous one iff the previous one has more than two references
@@ -67,7 +67,7 @@ From Coq Require Import String.
 Theorem c05_chain_rule_is_source :
   exists c, decisions "Collection.rootCAS" "prev.refs" = [c] /\
     forall refs : Z, gtrue (upd (upd env0 "prev" 1%Z) "prev.refs" refs) c = Some (Z.ltb 2 refs).
-Proof. exact Decisions.rootcas_chain_decision. Qed.
+Proof. exact DecProto.rootcas_chain_decision. Qed.
 Print Assumptions c05_chain_rule_is_source.
 
 (* a reader's pin is one increment, its release one decrement that frees only the last reference *)
@@ -76,13 +76,13 @@ Theorem c05_decref_is_source :
   exists rest, body "Collection.rootDecRefUnlocked" = SIncDec (GVar "r.refs") false :: SIf [] (GBin ">" (GVar "r.refs") (GInt 0)) [SReturn []] [] :: rest /\
   (Z.lt 1 r -> gexec 10 (upd env0 "r.refs" r) (firstn 2 (body "Collection.rootDecRefUnlocked")) = RRet []) /\
   (r = 1%Z -> exists rho, gexec 10 (upd env0 "r.refs" r) (firstn 2 (body "Collection.rootDecRefUnlocked")) = RFall rho /\ rho "r.refs" = Some 0%Z).
-Proof. exact Decisions.decref_decision. Qed.
+Proof. exact DecProto.decref_decision. Qed.
 Print Assumptions c05_decref_is_source.
 
 Theorem c05_addref_is_source :
   exists pre post, body "Collection.rootAddRef" = pre ++ SIncDec (GVar "t.root.refs") true :: post /\
                    Forall (fun s => match s with SIncDec _ _ | SAssign _ _ _ => False | _ => True end) (pre ++ post).
-Proof. exact Decisions.addref_is_increment. Qed.
+Proof. exact DecProto.addref_is_increment. Qed.
 Print Assumptions c05_addref_is_source.
 
 (* Flush pins the collections in NAME order: both of its loops range over the sorted name list *)
@@ -91,7 +91,7 @@ Theorem c05_flush_pins_in_name_order_is_source :
   (exists b1 b2, ranges (body "Store.Flush") = [(GVar "cnames", b1); (GVar "cnames", b2)] /\
                  In "c.rootAddRef" (calls 50 b1) /\ In "coll[name].write" (calls 50 b2)) /\
   (exists pre, body "collNames" = pre ++ [SExpr (GCall "sort.Strings" [GVar "res"]); SReturn [GVar "res"]]).
-Proof. exact Decisions.flush_pins_in_name_order. Qed.
+Proof. exact DecFlush.flush_pins_in_name_order. Qed.
 Print Assumptions c05_flush_pins_in_name_order_is_source.
 
 (* the version protocol in the source, statement by statement (the atomic actions of Proto.v and the locks they run under) *)
@@ -122,5 +122,5 @@ Theorem c05_protocol_functions_are_source :
      SAssign [GVar "t.root"] "=" [GNil];
      SExpr (GCall "t.rootLock.Unlock" []);
      SIf [] (GBin "!=" (GVar "r") GNil) [SExpr (GCall "t.rootDecRef" [GVar "r"])] []].
-Proof. exact Decisions.protocol_functions. Qed.
+Proof. exact DecProto.protocol_functions. Qed.
 Print Assumptions c05_protocol_functions_are_source.
